@@ -62,6 +62,10 @@ pub fn install_panic_hook() {
     });
 }
 
+pub fn take_panic_pub() -> Option<PanicInfo> {
+    take_panic()
+}
+
 fn take_panic() -> Option<PanicInfo> {
     LAST_PANIC.with(|c| c.borrow_mut().take())
 }
